@@ -426,6 +426,44 @@ def agree_config(h, mesh, layout, tind, free=None):
             h.equal('detDG^2 affine == isoparametric', da * da, db * db)
 
 
+def jcache_config(h, mesh, npts, tind, free=None):
+    """Jacobian cache of MappingIsoparametric (keyed on hash_args(i, j, X, tind)) with point arrays of `npts` columns: two point sets
+    differing in ONE interior column / two cell subsets of equal length must not share an entry."""
+    import skfem as S
+    with warnings.catch_warnings():
+        warnings.simplefilter('ignore')
+        m = make_mesh(h, mesh, free=free)
+        dim = m.p.shape[0]
+        nt = m.t.shape[1]
+        base = (np.arange(dim * npts).reshape(dim, npts) * 37 % 101 + 1) / 128.0
+        X1 = h.const(base)
+        b2 = base.copy()
+        mid = npts // 2
+        b2[:, mid] = b2[:, mid] + 0.125
+        X2 = h.const(b2)
+        h.sample(dict(mesh=mesh, entries=int(dim * npts), tind=tind, changed_column=int(mid)))
+        ti = None if tind is None else np.array(tind, dtype=np.int64)
+        used = get_mapping(m, 'iso')
+        used.DF(X1, tind=ti)                                  # fills the cache
+        got = np.asarray(used.DF(X2, tind=ti))
+        ref = np.asarray(get_mapping(m, 'iso').DF(X2, tind=ti))
+        for q in sorted({0, mid, npts - 1}):
+            h.equal('DF(X2) after DF(X1) == DF(X2) on a fresh mapping (column %d)' % q, got[..., q], ref[..., q])
+        if nt > 1 and ti is not None:
+            t2 = np.array(list(ti[1:]) + list(ti[:1]), dtype=np.int64)     # same length, rotated
+            got = np.asarray(used.DF(X2, tind=t2))
+            ref = np.asarray(get_mapping(m, 'iso').DF(X2, tind=t2))
+            h.equal('DF(X2, rotated tind) after DF(X2, tind) == fresh', got[..., mid], ref[..., mid])
+        # same bytes, different shape: (dim, npts) shared points vs. per-cell layout with one cell (dim, 1, npts) is exercised by C15;
+        # here: a transposed-looking reshape of the same buffer
+        if dim == 2 and npts % 2 == 0:
+            X3 = h.const(b2.reshape(-1)[: 2 * (npts // 2) * 2].reshape(2, 2, npts // 2)[:, :nt if ti is None else len(ti)])
+            if X3.shape[1] == (nt if ti is None else len(ti)):
+                got = np.asarray(used.DF(X3, tind=ti))
+                ref = np.asarray(get_mapping(m, 'iso').DF(X3, tind=ti))
+                h.equal('DF(per-cell points) after shared-point calls == fresh', got[..., 0], ref[..., 0])
+
+
 def build_configs(tier, seed):
     quick = tier == 'quick'
     cfgs = []
@@ -487,6 +525,12 @@ def build_configs(tier, seed):
     add('curved/quad1/MeshQuad2', curved_config, mesh='quad1', cls='MeshQuad2', timeout=900)
     if not quick:
         add('curved/quad2/MeshQuad2', curved_config, mesh='quad2', cls='MeshQuad2', timeout=3000)
+    # ---- Jacobian cache with point arrays beyond 1000 entries (the size at which NumPy's textual summaries start to elide) ---------
+    add('jcache/quad2/npts=8/tind=[1, 0]', jcache_config, mesh='quad2', npts=8, tind=[1, 0], free=[0])
+    add('jcache/quad2/npts=600/tind=[1, 0]', jcache_config, mesh='quad2', npts=600, tind=[1, 0], free=[0], timeout=900)
+    if not quick:
+        add('jcache/quad2/npts=2500/tind=None', jcache_config, mesh='quad2', npts=2500, tind=None, free=[0], timeout=2400)
+        add('jcache/tri2/npts=600/tind=[1, 0]', jcache_config, mesh='tri2', npts=600, tind=[1, 0], free=[0], timeout=2400)
     # ---- affine == isoparametric on simplices --------------------------------------------------------------------------------------------
     for mesh in ['tri3fan', 'line3perm', 'tet2']:
         for layout in ('shared', 'percell'):
@@ -508,7 +552,7 @@ META = dict(
                 newton='symbolic only on affine geometry (tri, thorough tet/line); general quads/hexes/mixed batches numeric with 1e-9 tolerance (concrete)',
                 layouts='(dim,npts) and (dim,ncells,npts); tind in {None, subset, permutation}; MappingAffine(mesh, tind=...)'),
     outside=['Newton inverse and normals on curved cells', 'curved tetrahedra/hexahedra', 'Newton convergence on general cells for all geometries',
-             'Jacobian cache behaviour on arrays beyond the enumerated sizes', 'float rounding'],
+             'Jacobian cache behaviour on point arrays beyond 1200 (thorough 5000) entries', 'float rounding'],
     stubs=[],
     assumptions=['mesh validity (non-degenerate cells, neighbours on opposite sides, convex quadrilaterals)'],
     design_ref='DESIGN.md 4/C10',
